@@ -274,6 +274,12 @@ def simplify_equality(
     if isinstance(simplified_equation, BooleanTrue):
         return None
 
+    if not isinstance(simplified_equation, Eq):
+        # the equation is a contradiction (e.g., x = x + 1) so it has no simplified relational form.
+        simplified_equation = Eq(
+            transformed_left_expr, transformed_right_expr, evaluate=False
+        )
+
     pddl_left_side = convert_expr_to_pddl(
         simplified_equation.lhs, symbolic_vars, decimal_digits=decimal_digits
     )
